@@ -11,27 +11,14 @@
 // arity of the component-function table, each component function is a function value answering a Bool
 // (eq) / an Int (cmp).  The evaluator is abstracted as a deterministic function of the expression (`ev`)
 // and of the callee and its arguments (`apply`).  std's slice::Iter / Zip are modelled by the types
-// `SeqIter` / `Zip` with the documented meaning of `next` (trusted).
+// `SeqIter` / `Zip` (finite) and `ElemIter` / `Zip2` / `Budget` (possibly endless streams) with the documented
+// meaning of `next` (trusted).
 #![allow(unused_imports, dead_code, unused_variables, unused_mut, unreachable_code)]
 use vstd::prelude::*;
 
 verus! {
 
-pub struct LazyBigint { pub v: Ghost<int> }
-impl LazyBigint {
-    pub open spec fn val(&self) -> int { self.v@ }
-    /// num_traits::Signed (util/lazy_bigint.rs, under contract in V-int)
-    #[verifier::external_body]
-    pub fn is_negative(&self) -> (r: bool) ensures r == (self.val() < 0) { unimplemented!() }
-    #[verifier::external_body]
-    pub fn is_positive(&self) -> (r: bool) ensures r == (self.val() > 0) { unimplemented!() }
-    #[verifier::external_body]
-    pub fn from(x: isize) -> (r: LazyBigint) ensures r.val() == x { unimplemented!() }
-    #[verifier::external_body]
-    pub fn zero() -> (r: LazyBigint) ensures r.val() == 0 { unimplemented!() }
-    #[verifier::external_body]
-    pub fn is_zero(&self) -> (r: bool) ensures r == (self.val() == 0) { unimplemented!() }
-}
+// @@INCLUDE lazyint@@
 pub struct Func { pub id: Ghost<int> }
 pub enum XValue { Int(LazyBigint), Bool(bool), Function(Func), StructInstance(Items) }
 /// `$crate::xvalue::XValue` as the macro `to_primitive!` names it
@@ -102,44 +89,94 @@ impl Items {
     { unimplemented!() }
 }
 
-/// XSequence (builtin/sequence.rs) as seen by the derived functions: a finite list of element results
-pub struct XSeq { pub e: Ghost<Seq<RuntimeResult<EvaluatedValue>>> }
+// ------------------------------------------------------------------ possibly endless streams (model, trusted)
+/// an iterator whose remaining items are `sat(0), sat(1), ..`; `slen() == None`: the stream is endless
+pub trait SIt: Sized {
+    type Item;
+    spec fn slen(&self) -> Option<nat>;
+    spec fn sat(&self, i: int) -> Self::Item;
+    fn next(&mut self) -> (r: Option<Self::Item>)
+        ensures
+            old(self).slen() == Some(0nat) ==> r is None && final(self).slen() == Some(0nat),
+            old(self).slen() != Some(0nat) ==> r == Some(old(self).sat(0))
+                && final(self).slen() == odec(old(self).slen())
+                && (forall|i: int| 0 <= i ==> #[trigger] final(self).sat(i) == old(self).sat(i + 1));
+}
+pub open spec fn odec(l: Option<nat>) -> Option<nat> { match l { Some(n) => Some((n - 1) as nat), None => None } }
+pub open spec fn osub(l: Option<nat>, k: int) -> Option<nat> { match l { Some(n) => Some((n - k) as nat), None => None } }
+pub open spec fn omin(a: Option<nat>, b: Option<nat>) -> Option<nat> {
+    match (a, b) { (None, x) => x, (x, None) => x, (Some(x), Some(y)) => Some(if x <= y { x } else { y }) }
+}
+/// i is a position of a stream of length l
+pub open spec fn within(i: int, l: Option<nat>) -> bool { 0 <= i && (l matches Some(n) ==> i < n) }
+/// core::iter::Zip: as long as the shorter side
+pub struct Zip2<A, B> { pub a: A, pub b: B }
+impl<A: SIt, B: SIt> SIt for Zip2<A, B> {
+    type Item = (A::Item, B::Item);
+    open spec fn slen(&self) -> Option<nat> { omin(self.a.slen(), self.b.slen()) }
+    open spec fn sat(&self, i: int) -> (A::Item, B::Item) { (self.a.sat(i), self.b.sat(i)) }
+    #[verifier::external_body]
+    fn next(&mut self) -> (r: Option<(A::Item, B::Item)>) { unimplemented!() }
+}
+/// core::iter::Enumerate
+pub struct Enumerate<A> { pub a: A, pub count: Ghost<int> }
+impl<A: SIt> SIt for Enumerate<A> {
+    type Item = (usize, A::Item);
+    open spec fn slen(&self) -> Option<nat> { self.a.slen() }
+    open spec fn sat(&self, i: int) -> (usize, A::Item) { ((self.count@ + i) as usize, self.a.sat(i)) }
+    #[verifier::external_body]
+    fn next(&mut self) -> (r: Option<(usize, A::Item)>) { unimplemented!() }
+}
+/// XSequence (builtin/sequence.rs) as seen here: the list of its element results, finite or endless
+/// (`XSequence::len` is `None` exactly for an endless sequence, e.g. `count()`)
+pub struct XSeq { pub l: Ghost<Option<nat>>, pub g: Ghost<spec_fn(int) -> RuntimeResult<EvaluatedValue>> }
 /// the iterator `XSequence::iter` hands out (elements in index order)
-pub struct ElemIter { pub r: Ghost<Seq<RuntimeResult<EvaluatedValue>>> }
-impl VxIt for ElemIter {
+pub struct ElemIter { pub l: Ghost<Option<nat>>, pub g: Ghost<spec_fn(int) -> RuntimeResult<EvaluatedValue>> }
+impl SIt for ElemIter {
     type Item = RuntimeResult<EvaluatedValue>;
-    open spec fn rest(&self) -> Seq<RuntimeResult<EvaluatedValue>> { self.r@ }
+    open spec fn slen(&self) -> Option<nat> { self.l@ }
+    open spec fn sat(&self, i: int) -> RuntimeResult<EvaluatedValue> { (self.g@)(i) }
     #[verifier::external_body]
     fn next(&mut self) -> (r: Option<RuntimeResult<EvaluatedValue>>) { unimplemented!() }
 }
 impl ElemIter {
-    pub fn zip<B: VxIt>(self, b: B) -> (r: Zip<ElemIter, B>) ensures r.a == self, r.b == b { Zip { a: self, b } }
+    pub fn zip<B: SIt>(self, b: B) -> (r: Zip2<ElemIter, B>) ensures r.a == self, r.b == b { Zip2 { a: self, b } }
+    pub fn enumerate(self) -> (r: Enumerate<ElemIter>) ensures r.a == self, r.count@ == 0 { Enumerate { a: self, count: Ghost(0) } }
 }
 impl XSeq {
-    pub open spec fn elems(&self) -> Seq<RuntimeResult<EvaluatedValue>> { self.e@ }
-    /// XSequence::len: always `Some(..)` (src/builtin/sequence.rs:99)
+    pub open spec fn slen(&self) -> Option<nat> { self.l@ }
+    pub open spec fn at(&self, i: int) -> RuntimeResult<EvaluatedValue> { (self.g@)(i) }
     #[verifier::external_body]
-    pub fn len(&self) -> (r: Option<usize>) ensures r == Some(self.elems().len() as usize), self.elems().len() <= usize::MAX { unimplemented!() }
+    pub fn len(&self) -> (r: Option<usize>)
+        ensures
+            r == (match self.slen() { Some(n) => Some(n as usize), None => None::<usize> }),
+            self.slen() matches Some(n) ==> n <= usize::MAX,
+    { unimplemented!() }
     #[verifier::external_body]
-    pub fn iter(&self, ns: &Ns, rt: Rt) -> (r: ElemIter) ensures r.rest() == self.elems() { unimplemented!() }
+    pub fn iter(&self, ns: &Ns, rt: Rt) -> (r: ElemIter)
+        ensures r.slen() == self.slen(), forall|i: int| 0 <= i ==> #[trigger] r.sat(i) == self.at(i),
+    { unimplemented!() }
 }
-/// the search budget (RuntimeLimits::search_iter): `Ok(())` per permitted step, then one MaximumSearch
-/// violation; `n` is the length of the stream it is zipped with
-pub struct Budget { pub r: Ghost<Seq<RuntimeResult<()>>> }
-impl VxIt for Budget {
+/// the search budget (RuntimeLimits::search_iter; V-budget proves this shape): endless permits without a
+/// limit, otherwise L permits, one MaximumSearch violation, and the end
+pub struct Budget { pub l: Ghost<Option<nat>>, pub g: Ghost<spec_fn(int) -> RuntimeResult<()>> }
+impl SIt for Budget {
     type Item = RuntimeResult<()>;
-    open spec fn rest(&self) -> Seq<RuntimeResult<()>> { self.r@ }
+    open spec fn slen(&self) -> Option<nat> { self.l@ }
+    open spec fn sat(&self, i: int) -> RuntimeResult<()> { (self.g@)(i) }
     #[verifier::external_body]
     fn next(&mut self) -> (r: Option<RuntimeResult<()>>) { unimplemented!() }
 }
-pub open spec fn budget_shape(b: Seq<RuntimeResult<()>>, n: int) -> bool {
-    ||| (b.len() >= n && forall|i: int| 0 <= i < n ==> (#[trigger] b[i]) is Ok)
-    ||| (1 <= b.len() <= n && b[b.len() - 1] is Err && forall|i: int| 0 <= i < b.len() - 1 ==> (#[trigger] b[i]) is Ok)
+pub open spec fn is_budget(b: Budget) -> bool {
+    match b.slen() {
+        None => forall|i: int| 0 <= i ==> (#[trigger] b.sat(i)) is Ok,
+        Some(m) => m >= 1 && b.sat(m - 1) is Err && forall|i: int| 0 <= i < m - 1 ==> (#[trigger] b.sat(i)) is Ok,
+    }
 }
-/// builtin/core.rs `search`: zip with the search budget
+/// builtin/core.rs `search`: zip with the search budget (V-budget)
 #[verifier::external_body]
-pub fn search<I: VxIt>(other: I, rt: Rt) -> (r: Zip<I, Budget>)
-    ensures r.a == other, budget_shape(r.b.rest(), other.rest().len() as int),
+pub fn search<I: SIt>(other: I, rt: Rt) -> (r: Zip2<I, Budget>)
+    ensures r.a == other, is_budget(r.b),
 { unimplemented!() }
 pub assume_specification [<isize as core::convert::From<bool>>::from] (b: bool) -> (r: isize)
     ensures r == (if b { 1isize } else { 0isize });
@@ -224,7 +261,7 @@ pub open spec fn tuple_args(args: &[XExpr], funcs: Items) -> bool {
 }
 /// the answer of the element function on the k-th elements of two sequences
 pub open spec fn sans(f: Val, x: XSeq, y: XSeq, k: int) -> EvaluatedValue {
-    apply(f.value->Function_0, seq![x.elems()[k]->Ok_0, y.elems()[k]->Ok_0])
+    apply(f.value->Function_0, seq![x.at(k)->Ok_0, y.at(k)->Ok_0])
 }
 pub open spec fn func_answers_bool(f: Val) -> bool {
     f.value is Function && forall|s: Seq<EvaluatedValue>| (#[trigger] apply(f.value->Function_0, s)) matches Ok(c) ==> c.value is Bool
